@@ -105,12 +105,37 @@ def hostile_rotations(rng, n, a, b, width, extra=4):
 _TOK = re.compile(r"[A-Z][*+]\??|[A-Z]|[()]")
 
 
-def instance(rng, pattern, run_max=12, run_min=0):
+def instance(rng, pattern, run_max=12, run_min=0, groups=None, run_filter=None):
     """a string matching a moclo structure pattern: every IUPAC letter expanded to
-    a random member, every run X* to run_min..run_max random members"""
+    a random member, every run X* to run_min..run_max random members.
+    groups: {group index: text} to force the content of a (non-nested, run-free) group;
+    run_filter: callable(text) -> bool that the text of each run must satisfy (rejection-sampled)."""
     out = []
+    g = 0
+    stack = []
+    skip = 0
     for t in _TOK.findall(pattern):
-        if t in "()":
+        if t == "(":
+            g += 1
+            stack.append(g)
+            if groups and g in groups:
+                out.append(groups[g])
+                skip += 1
+            continue
+        if t == ")":
+            if groups and stack[-1] in groups:
+                skip -= 1
+            stack.pop()
+            continue
+        if skip:
+            continue
+        if len(t) > 1 and run_filter is not None:
+            lo = max(run_min, 1 if t[1] == "+" else 0)
+            for _ in range(500):
+                txt = "".join(rng.choice(IUPAC[t[0]]) for _ in range(rng.randint(lo, max(lo, run_max))))
+                if run_filter(txt):
+                    break
+            out.append(txt)
             continue
         if len(t) > 1:
             lo = max(run_min, 1 if t[1] == "+" else 0)
